@@ -31,7 +31,7 @@ class NotifyServer:
                     len(self.connections) - 1,
                 )
 
-                for peer in self.connections.values():
+                for peer in list(self.connections.values()):
                     if peer != writer:
                         peer.write(data)
                         await peer.drain()
